@@ -107,7 +107,8 @@ def gen(prop, stream, tier, avoid):
                                               "num": rng.pick([1, 1, 2])} for d in range(nd)}})
             else:
                 ops.append({"op": "reject", "obj": o, "via": rng.pick(["method", "operations"]), "dir": rng.randrange(nd),
-                            "at": ["knot", rng.randrange(8)] if rng.chance(0.6) else ["new", rng.randint(1, 127)],
+                            "at": rng.weighted([(["knot", rng.randrange(8)], 5), (["new", rng.randint(1, 127)], 3),
+                                                (["end", rng.randrange(2)], 2)]),
                             "excess": rng.pick([1, 1, 2])})
         elif k == "remove":
             ndirs = 1 if rng.chance(0.75) else rng.randint(1, nd)
@@ -220,6 +221,9 @@ class Live:
 
 def _resolve_at(lv, d, at):
     a, L = lv.aL[d]
+    if at[0] == "end":
+        # an end of the domain: the clamped end knot has multiplicity degree + 1, nothing can be inserted there
+        return (lv.knots[d][0] if at[1] == 0 else lv.knots[d][-1]), True
     if at[0] == "knot":
         ik = lv.interior(d)
         if ik:
@@ -446,7 +450,9 @@ def run(script, ctx):
             d = op["dir"] % lv.nd
             u, _ = _resolve_at(lv, d, op["at"])
             s = lv.mult(d, u)
-            r = (lv.degrees[d] - s) + op["excess"]
+            r = max(1, (lv.degrees[d] - s) + op["excess"])
+            if op["at"][0] == "end":
+                ctx.probe("reject_at_domain_end")
             params = [None] * lv.nd
             nums = [0] * lv.nd
             params[d] = u
